@@ -193,3 +193,43 @@ def check_doubling(facts, rep):
         rep.violation('E7b.K5-doubling', inst,
                       'build_from_half doubles key: %s, cobordism: %s, coefficient (r*r): %s, tau swap of halves: %s - all four are needed when the half tangle is glued to its mirror image' %
                       (key_doubled, cob_doubled, coef_squared, swap), where=facts.bodies[root].where())
+
+
+def check_half_grouping(facts, rep):
+    """K6: the off-axis crossings are grouped into connected pieces by a union over *all* adjacent pairs: the union call
+    sits in a two-level loop nest (x over all off-axis crossings, y over all earlier ones) that is left only by exhaustion,
+    guarded by the adjacency test alone. Joining each crossing to the *first* adjacent earlier one only leaves pieces
+    unmerged, the partition depends on the listing order, and a "half" may contain a crossing together with its mirror image."""
+    import cfgutil
+    b = facts.bodies.get(B + 'off_axis_crossings')
+    if b is None:
+        rep.indet('E7b.K6: off_axis_crossings not found')
+        return
+    rep.saw(b)
+    unions = [c for c in b.calls() if (c.callee or c.generic or '').split('::')[-1] == 'union']
+    inst = 'SymTngBuilder::off_axis_crossings|union over all adjacent pairs (x, earlier y)'
+    if len(unions) != 1:
+        rep.indet('E7b.K6: %d union calls in off_axis_crossings' % len(unions))
+        return
+    ub = unions[0].bb
+    dom = b.dominators()
+    loops = [l for l in cfgutil.for_loops(b) if l[1] in dom.get(ub, ()) and ub in cfgutil.reach_without(b, l[2], {l[1]})]
+    probs = []
+    if len(loops) < 2:
+        probs.append('the union is inside %d loop(s) instead of the nest over all pairs: each crossing is joined to at most one earlier crossing' % len(loops))
+    for (I, N, some, none) in loops:
+        if cfgutil.early_exits(b, N, some):
+            probs.append('a loop around the union can be left before its range is exhausted')
+    # guard: the union is reached from the inner loop head only through the adjacency test
+    calls_between = set()
+    if loops:
+        inner = max(loops, key=lambda l: len(dom[l[1]]))
+        region = cfgutil.reach_without(b, inner[2], {inner[1], ub})
+        for c in b.calls():
+            if c.bb in region and ub in cfgutil.reach_without(b, c.bb, {inner[1]}):
+                calls_between.add((c.callee or c.generic or '').split('::')[-1])
+    if probs:
+        rep.violation('E7b.K6-all-pairs-union', inst, 'SymTngBuilder::off_axis_crossings: ' + '; '.join(probs) +
+                      ' - connected pieces stay unmerged, the chosen half depends on the listing order and can contain a crossing and its mirror image', where=b.where())
+    else:
+        rep.ok('E7b.K6-all-pairs-union', inst, 'two nested exhaustive loops; calls before the union: %s' % sorted(calls_between))
